@@ -19,6 +19,17 @@ the values of the vector actually passed, never by the stored column of that nam
 Tie blocks (op 'table', keys without None): multi-key sorts in which a key that is not the last one
 has ties, under every per-key direction combination, so that the later keys must break the ties
 of a DESCENDING earlier key in their own direction.
+Sort, write, sort again (op 'resort'): s = t.sort_by(spec); one or two cells of a KEY column of s are then
+rewritten in place - through the column view (s.k0[i] = v, a view held since before the write, s['k0'][i] = v,
+slice and mask writes of the view) or through table cell assignment (s[i, 'k0'] = v) - or the names of two key
+columns are swapped through their views; s.sort_by(spec) with the very same spec must then be the contract's
+sort of the NEW contents of s (and leave s alone), for one and two keys, every direction setting, both na_last,
+keys by name and by s's own column vectors.  A result is only reported when a freshly built table with the new
+contents is sorted correctly (i.e. when the outcome depends on the history).
+Key named like an earlier column's sanitised twin (op 'twin'): the table holds, BEFORE each key column, a decoy
+column whose name only sanitises to the key's exact name ('Score' / 'score', 'unit price' / 'unit_price',
+'count' / 'count_', 'Key-3' / 'key_3') and holds other values; sort_by(<exact name>) must order the rows by the
+column that bears exactly that name (one and two keys, every direction setting, both na_last).
 """
 from relational_common import *  # noqa
 
@@ -81,6 +92,258 @@ def tie_cases(tier):
                            'mode': MODES3[(idx + ri) % 3], 'block': 'ties'}
 
 
+# ---- sort, write, sort again ----
+RESORT_HOWS = ['view-cell', 'held-view-cell', 'getitem-cell', 'table-cell', 'view-slice', 'view-mask']
+RESORT_POOL = {1: [None, 0, 1, 2], 2: [None, 0, 1]}
+
+
+def _resort_writes(sorted_col, pool, i, r, how):
+    """Cells (row in the SORTED table, new value) of one write; new values differ from the current ones."""
+    n = len(sorted_col)
+
+    def other(cur, r):
+        rest = [x for x in pool if x != cur or (x is None) != (cur is None)]
+        return rest[r % len(rest)]
+    if how == 'view-slice':
+        rows_ = [i, i + 1] if i + 1 < n else [i]
+        return [[p, other(sorted_col[p], r + q)] for q, p in enumerate(rows_)]
+    if how == 'view-mask':
+        new = other(sorted_col[i], r)
+        return [[p, new] for p in range(n) if p == i or (p == (i + 2) % n and sorted_col[p] != new)]
+    return [[i, other(sorted_col[i], r)]]
+
+
+def resort_cases(tier):
+    for nk in (1, 2):
+        pool = RESORT_POOL[nk]
+        per_row = [list(k) for k in itertools.product(pool, repeat=nk)]
+        settings = [(r, nl) for r in ([False, True] if nk == 1 else [list(c) for c in itertools.product([False, True], repeat=2)])
+                    for nl in (True, False)]
+        lo, hi = (1, 3) if nk == 1 else (2, 3)
+        idx = 0
+        for n in range(lo, hi + 1):
+            for combo in itertools.product(per_row, repeat=n):
+                rows = [list(r) for r in combo]
+                keycols = [[r[j] for r in rows] for j in range(nk)]
+                idx += 1
+                if tier == 'quick':
+                    chosen = settings if nk == 1 else [settings[idx % len(settings)]]
+                else:
+                    chosen = settings
+                for si, (rev, nl) in enumerate(chosen):
+                    order = sort_oracle(keycols, rev_list(rev, nk), nl)
+                    if tier == 'quick':
+                        picks = [(idx + si + q * 3) for q in range(2 if nk == 1 else 1)]
+                    else:
+                        picks = list(range(len(RESORT_HOWS) * 2))
+                    for c in picks:
+                        how = RESORT_HOWS[c % len(RESORT_HOWS)]
+                        j = (c // 2) % nk
+                        i = (c + idx) % n
+                        sorted_col = [keycols[j][p] for p in order]
+                        yield {'op': 'resort', 'nk': nk, 'rows': rows, 'reverse': rev, 'na_last': nl, 'mode': ['name', 'col'][(idx + c) % 2],
+                               'how': how, 'col': j, 'writes': lit(_resort_writes(sorted_col, pool, i, c // len(RESORT_HOWS) + idx, how))}
+                    if nk == 2 and (tier != 'quick' or idx % 4 == 0):
+                        yield {'op': 'resort', 'nk': nk, 'rows': rows, 'reverse': rev, 'na_last': nl, 'mode': 'name',
+                               'how': 'key-names-swapped-through-views', 'col': 0, 'writes': '[]'}
+
+
+def _apply_write(s, case, held):
+    name, how, writes = f"k{case['col']}", case['how'], ev(case['writes'])
+    if how == 'key-names-swapped-through-views':
+        s.k0.rename('tmp_name')
+        s.k1.rename('k0')
+        s.tmp_name.rename('k1')
+    elif how == 'view-slice':
+        lo = writes[0][0]
+        getattr(s, name)[lo:lo + len(writes)] = [w[1] for w in writes]
+    elif how == 'view-mask':
+        hit = [w[0] for w in writes]
+        getattr(s, name)[Vector([p in hit for p in range(len(s))])] = writes[0][1]
+    else:
+        for p, new in writes:
+            if how == 'view-cell':
+                getattr(s, name)[p] = new
+            elif how == 'held-view-cell':
+                held[p] = new
+            elif how == 'getitem-cell':
+                s[name][p] = new
+            else:
+                s[p, name] = new
+
+
+def check_sorted_rows(site, descr, in_rows, names, res, keycols, revs, na_last, fails, classify=None):
+    """`res` against the contract for a table whose rows are `in_rows` (cell 0 of a row = a unique row tag)."""
+    m = truthful(res)
+    if m:
+        fails.append(Fail('C03:sort_by:truthful', f'{descr}: {m}', None, m))
+    n = len(in_rows)
+    try:
+        got_rows = rows_of(res)
+    except AssertionError as e:
+        fails.append(Fail(f'{PID}:{site}:ragged-result', f'{descr}: {e}', None, str(e)))
+        return
+    if list(res.column_names()) != list(names):
+        fails.append(Fail(f'{PID}:{site}:column-names', f'{descr}: columns changed', list(names), list(res.column_names())))
+        return
+    tags = [r[0] for r in in_rows]
+    got_tags = [r[0] for r in got_rows]
+    if sorted(map(repr, got_tags)) != sorted(map(repr, tags)):
+        fails.append(Fail(fail_key(site, 'not-a-permutation', revs), f'{descr}: the pos column of the result is not a permutation of the input\'s',
+                          tags, got_tags, f'{PID}:sort_by:gather'))
+        return
+    got_pos = [tags.index(g) for g in got_tags]
+    if any(not same(tuple(r), tuple(in_rows[p])) for r, p in zip(got_rows, got_pos)):
+        fails.append(Fail(fail_key(site, 'cells-not-kept-together', revs), f'{descr}: an output row is not the input row its pos cell came from',
+                          [in_rows[p] for p in got_pos], got_rows, f'{PID}:sort_by:gather'))
+        return
+    want_pos = sort_oracle(keycols, revs, na_last)
+    if got_pos != want_pos:
+        cls = (classify(got_pos) if classify else None) or classify_sort(got_pos, want_pos, keycols, na_last)
+        fails.append(Fail(fail_key(site, cls, revs), f'{descr}: row order (positions in the table that was sorted) differs from the contract',
+                          want_pos, got_pos, f'{PID}:sort_by:loop[keys]:inv'))
+
+
+def _resort_table(rows, nk, names=None):
+    n = len(rows)
+    names = names or [f'k{j}' for j in range(nk)]
+    return Table([Vector([r[0] for r in rows], name='pos')] + [Vector([r[1 + j] for r in rows], dtype=DataType(int, True), name=names[j]) for j in range(nk)]
+                 + [Vector([r[1 + nk] for r in rows], name='tag')])
+
+
+def eval_resort(case):
+    nk, rows, rev, na_last, mode, how = case['nk'], case['rows'], case['reverse'], case['na_last'], case['mode'], case['how']
+    n = len(rows)
+    revs = rev_list(rev, nk)
+    site = f'Table.sort_by-after-write:{how}'
+    descr = (f's = Table(pos, keys={rows}, tag).sort_by({mode} x{nk}, reverse={rev}, na_last={na_last}); key column k{case["col"]} of s written '
+             f'({how}: {case["writes"]}); s.sort_by(same arguments)')
+
+    def spec(table):
+        by = [f'k{j}' for j in range(nk)] if mode == 'name' else [table.cols()[1 + j] for j in range(nk)]
+        return by[0] if nk == 1 else by
+    try:
+        t = _resort_table([[i] + list(r) + [f'r{i}'] for i, r in enumerate(rows)], nk)
+        s = t.sort_by(spec(t), reverse=rev, na_last=na_last)
+        first = rows_of(s)
+        order = sort_oracle([[r[j] for r in rows] for j in range(nk)], revs, na_last)
+        if [r[0] for r in first] != order:
+            return []                  # the first sort is wrong: a single-call defect (other blocks)
+        held = s.cols()[1 + case['col']]
+        _apply_write(s, case, held)
+        # what s must hold now
+        model = [list(r) for r in first]
+        for p, new in ev(case['writes']):
+            model[p][1 + case['col']] = new
+        if how == 'key-names-swapped-through-views':
+            if list(s.column_names()) != ['pos', 'k1', 'k0', 'tag']:
+                return []              # the rename did not take: not this property's business
+        elif list(s.column_names()) != ['pos'] + [f'k{j}' for j in range(nk)] + ['tag']:
+            return []
+        if not rows_same(rows_of(s), [tuple(r) for r in model]):
+            return []                  # the write did not take: not this property's business
+    except Exception:
+        return []
+    in_rows = rows_of(s)
+    names = list(s.column_names())
+    by_name = {nm: [r[c] for r in in_rows] for c, nm in enumerate(names)}
+    keycols = [by_name[f'k{j}'] for j in range(nk)] if mode == 'name' else [[r[1 + j] for r in in_rows] for j in range(nk)]
+    before = view(s)
+    fails = []
+    try:
+        res = s.sort_by(spec(s), reverse=rev, na_last=na_last)
+    except Exception as e:
+        return [Fail(f'{PID}:{site}:raises:{type(e).__name__}', f'{descr}: raised {e!r}', None, repr(e), f'{PID}:sort_by:post')]
+    mine = []
+    check_sorted_rows(site, descr, in_rows, names, res, keycols, revs, na_last, mine,
+                      classify=lambda got: 'not-sorted-again' if got == list(range(n)) else None)
+    if view(s) != before:
+        mine.append(Fail(f'{PID}:{site}:input-modified', f'{descr}: the second sort changed s', before, view(s)))
+    if any(f['key'].startswith(PID) for f in mine):
+        # history-dependent?  a freshly built table with the same contents and names
+        try:
+            order_names = [nm for nm in names if nm.startswith('k')]
+            f = _resort_table([list(r) for r in in_rows], nk, order_names)
+            by = [f'k{j}' for j in range(nk)] if mode == 'name' else [f.cols()[1 + j] for j in range(nk)]
+            chk = []
+            check_sorted_rows(site, descr, rows_of(f), names, f.sort_by(by[0] if nk == 1 else by, reverse=rev, na_last=na_last), keycols, revs, na_last, chk)
+            if chk:
+                return fails           # wrong on a fresh table as well: a single-call defect (other blocks)
+        except Exception:
+            return fails
+    return fails + mine
+
+
+# ---- key given by the exact name of a column that stands AFTER its sanitised twin ----
+SORT_TWIN_PAIRS = [('Score', 'score'), ('unit price', 'unit_price'), ('count', 'count_'), ('Key-3', 'key_3')]
+_TWIN_CYCLE = [None, 0, 1]
+
+
+def twin_sort_cases(tier):
+    for nk in (1, 2):
+        per_row = [list(k) for k in itertools.product(KEYVALS, repeat=nk)]
+        settings = [(r, nl) for r in rev_settings(nk) for nl in (True, False)]
+        hi = (4 if nk == 1 else 3) if tier == 'quick' else (5 if nk == 1 else 3)
+        idx = 0
+        for n in range(1, hi + 1):
+            for combo in itertools.product(per_row, repeat=n):
+                idx += 1
+                rows = [list(r) for r in combo]
+                if tier == 'quick' and (nk == 2 or n == 4):
+                    chosen = [settings[(idx * 2 + q) % len(settings)] for q in range(2)]
+                else:
+                    chosen = settings
+                for si, (rev, nl) in enumerate(chosen):
+                    yield {'op': 'twin', 'nk': nk, 'rows': rows, 'reverse': rev, 'na_last': nl, 'pair_off': (idx + si) % len(SORT_TWIN_PAIRS),
+                           'layout': ['decoys-first', 'interleaved', 'one-twin-one-plain'][(idx + si) % 3] if nk == 2 else 'decoys-first'}
+
+
+def eval_twin(case):
+    nk, rows, rev, na_last = case['nk'], case['rows'], case['reverse'], case['na_last']
+    n = len(rows)
+    revs = rev_list(rev, nk)
+    site = 'Table.sort_by:key-named-like-an-earlier-sanitised-twin'
+    pairs = [SORT_TWIN_PAIRS[(case['pair_off'] + j) % len(SORT_TWIN_PAIRS)] for j in range(nk)]
+    keycols = [[r[j] for r in rows] for j in range(nk)]
+    decoys = [[_TWIN_CYCLE[(_TWIN_CYCLE.index(x) + 1 + j) % 3] for x in keycols[j]] for j in range(nk)]
+    try:
+        pos = Vector(list(range(n)), name='pos')
+        tag = Vector([f'r{i}' for i in range(n)], name='tag')
+        kv = [Vector(list(keycols[j]), dtype=DataType(int, True), name=pairs[j][1]) for j in range(nk)]
+        dv = [Vector(list(decoys[j]), dtype=DataType(int, True), name=pairs[j][0]) for j in range(nk)]
+        if case['layout'] == 'one-twin-one-plain':
+            kv[1] = Vector(list(keycols[1]), dtype=DataType(int, True), name='g')
+            cols = [pos, dv[0], kv[1], kv[0], tag]
+            by = [pairs[0][1], 'g']
+        elif case['layout'] == 'interleaved':
+            cols = [pos, dv[0], kv[0], dv[1], kv[1], tag]
+            by = [p[1] for p in pairs]
+        else:
+            cols = [pos] + dv + kv + [tag]
+            by = [p[1] for p in pairs]
+        t = Table(cols)
+        names = [c._name for c in cols]
+        if nk == 1 and isinstance(rev, bool):
+            by = by[0]
+        in_rows = rows_of(t)
+    except Exception as e:
+        return [Fail(f'{PID}:setup:raises:{type(e).__name__}', f'twin-name table {rows}: building the table raised {e!r}', None, repr(e))]
+    descr = f'Table(columns {names}, key rows {rows}, decoy columns {decoys}).sort_by({by!r}, reverse={rev}, na_last={na_last})'
+    before = view(t)
+    fails = []
+    try:
+        res = t.sort_by(by, reverse=rev, na_last=na_last)
+    except Exception as e:
+        return [Fail(f'{PID}:{site}:raises:{type(e).__name__}', f'{descr}: raised {e!r}', None, repr(e), f'{PID}:sort_by:post')]
+    decoy_keycols = [decoys[j] if not (case['layout'] == 'one-twin-one-plain' and j == 1) else keycols[j] for j in range(nk)]
+    by_decoy = sort_oracle(decoy_keycols, revs, na_last)
+    check_sorted_rows(site, descr, in_rows, names, res, keycols, revs, na_last, fails,
+                      classify=lambda got: 'ordered-by-the-twin-column' if got == by_decoy else None)
+    if view(t) != before:
+        fails.append(Fail(f'{PID}:{site}:input-modified', f'{descr}: the table changed', before, view(t)))
+    return fails
+
+
 def cases(tier, seed):
     for nk, lo, hi, plan in table_blocks(tier):
         per_row = [list(k) for k in itertools.product(KEYVALS, repeat=nk)]
@@ -106,6 +369,8 @@ def cases(tier, seed):
                         yield {'op': 'vector', 'pool': label, 'vals': lit([pool[i] for i in combo]), 'reverse': rev, 'na_last': nl}
     yield from derived_cases(tier)
     yield from tie_cases(tier)
+    yield from resort_cases(tier)
+    yield from twin_sort_cases(tier)
 
 
 def rev_list(rev, nk):
@@ -316,10 +581,18 @@ def eval_derived(case):
 def evaluate(case):
     if case['op'] == 'derived':
         return eval_derived(case)
+    if case['op'] == 'resort':
+        return eval_resort(case)
+    if case['op'] == 'twin':
+        return eval_twin(case)
     return eval_table(case) if case['op'] == 'table' else eval_vector(case)
 
 
 def nontrivial(case):
+    if case['op'] == 'resort':
+        return ('resort', case['nk'], case['mode'], case['how'], len(case['rows']), repr(case['reverse']), case['na_last'], case['col'])
+    if case['op'] == 'twin':
+        return ('twin', case['nk'], case['layout'], case['pair_off'], len(case['rows']), repr(case['reverse']), case['na_last'])
     if case['op'] == 'vector':
         vals = ev(case['vals'])
         if len(vals) < 2:
@@ -346,6 +619,8 @@ def bound(tier):
             'key_modes': MODES3, 'vector_pools': [[repr(x) for x in p] for _, p in VEC_POOLS], 'vector_max_len': 4,
             'derived_key_forms': DERIVED_FORMS, 'derived_key_values': repr(DERIVED_VALS),
             'derived_rows': 'all settings up to %d rows, 2 rotating settings up to %d rows' % ((3, 4) if tier == 'quick' else (4, 5)),
+            'resort_writes': RESORT_HOWS + ['key-names-swapped-through-views'], 'resort_tables': '1 key <=3 rows over {None,0,1,2}; 2 keys 2..3 rows over {None,0,1}',
+            'twin_name_pairs': SORT_TWIN_PAIRS, 'twin_tables': '1 key <=%d rows, 2 keys <=3 rows over {None,0,1}' % (4 if tier == 'quick' else 5),
             'tie_blocks(nk, values, min_rows, max_rows)': [(2, [0, 1, 2], 3, 3), (2, [0, 1], 4, 4), (3, [0, 1], 3, 3)] if tier == 'quick'
             else [(2, [0, 1, 2], 3, 4), (2, [0, 1], 5, 5), (3, [0, 1], 3, 4)]}
 
@@ -357,6 +632,8 @@ if __name__ == '__main__':
               'the pairwise stable-lexicographic contract; permutation / cells together / input unchanged / idempotent; plus keys passed as '
               'derived / external vectors that carry a column name (-t.age, abs(t.age), external Vector named like a column, either of two '
               'same-named columns as vector object) ordered by the passed vector, and None-free multi-key tables with ties in a non-last '
-              'key under every direction list. distinct = '
+              'key under every direction list; plus sort / write a key cell of the result (views, slice, mask, table cell assignment, key names swapped) / '
+              'sort again by the same spec vs the contract on the new contents; plus keys given by the exact name of a column standing after a column '
+              'whose name only sanitises to it. distinct = '
               'distinct (kind, nk, mode, rows, reverse, na_last, duplicate rows, None key, first-key tie) signatures',
          bound=bound, nontrivial=nontrivial)
